@@ -46,6 +46,7 @@ type World struct {
 	initial      map[string]*T
 	ghost        map[string]Value
 	calls        []CallRec
+	chainRev     map[*T]*T // chain-id term -> revision (contexts made by NewCtx)
 }
 
 type readEntry struct {
@@ -65,7 +66,7 @@ type CallRec struct {
 }
 
 func newWorld(e *Engine) *World {
-	return &World{e: e, choiceValues: map[string]interface{}{}, readKeys: map[int]bool{}, initial: map[string]*T{}, ghost: map[string]Value{}}
+	return &World{e: e, choiceValues: map[string]interface{}{}, readKeys: map[int]bool{}, initial: map[string]*T{}, chainRev: map[*T]*T{}, ghost: map[string]Value{}}
 }
 
 // modelTerms: extra terms whose model values are requested on sat (store reads).
@@ -208,7 +209,12 @@ func init() {
 		if name != "ctx" {
 			root.label = name + ":"
 		}
-		return &CtxVal{ms: root, height: h, timeNs: t, chainID: Var(name+".chainID", StrS), flags: map[string]*T{}, vals: map[string]Value{}}
+		// chain ids have the revision format "chain-<rev>", rev >= 1
+		rev := Var(name+".rev", BVS(64))
+		e.pc = append(e.pc, BVCmp("bvuge", rev, BVConst(1, 64)))
+		cid := Concat(StrConst("chain-"), e.decUF(rev))
+		w.chainRev[cid] = rev
+		return &CtxVal{ms: root, height: h, timeNs: t, chainID: cid, flags: map[string]*T{}, vals: map[string]Value{}}
 	})
 	reg("github.com/cosmos/cosmos-sdk/types.UnwrapSDKContext", func(e *Engine, fn *ssa.Function, a []Value) Value { return ctxOf(a[0]) })
 	reg(sc+"BlockHeight", pure(func(e *Engine, c *CtxVal, a []Value) Value { return c.height }))
